@@ -8,7 +8,7 @@ MODULE_POOL = ["A", "A::B", "A::B::C", "A::D", "Z"]
 # never a module segment name and never a primitive keyword
 IDENTS = ["S", "T", "U", "V", "W", "Node", "Item", "Kind", "struct", "tag", "Sequence", "module", "stream", "custom", "enum",
           "interface", "compact", "idempotent", "Result", "Dictionary", "typealias", "unchecked", "x", "y", "value", "data", "id",
-          "Xa", "x_1", "Q9", "returnValue"]
+          "Xa", "x_1", "Q9", "returnValue", "string", "int32", "bool", "uint8", "float64", "varint62"]
 INTEGRALS = list(INTEGRAL_BOUNDS)
 KEY_PRIMS = INTEGRALS + ["bool", "string"]
 
